@@ -1,4 +1,4 @@
-import TarpcModel.Lemmas.ClientNotLate
+import TarpcModel.Lemmas.ClientDue
 import TarpcModel.Props.C05
 import TarpcModel.Props.C16Client
 /-!
@@ -23,10 +23,12 @@ made progress.
 **What is proved, what is not.**  Proved: when a dispatch poll goes back to waiting, *no in-flight request has a due
 timer* (`C05_dispatch_idle_not_late`) — every timer that was due was handled in that poll: its request failed with
 `DeadlineExceeded`, or (time still to be armed) re-armed for a later tick — and the wake-up is armed no later than the
-earliest remaining tick.  Not provable: the monitor form `C05_monitor_full_Statement`, which measures lateness against
-`ceil_ms (max deadline sent)`: it is **false** (`C05_monitor_full_statement_false`) because a re-arm rounds up a second
-time — for deadlines beyond the clamp the final tick can lie 1 ms (per re-arm) after the millisecond tick of the deadline
-(`C05_rearm_late_witness`).
+earliest remaining tick.  Not proved here: the monitor form `C05_monitor_full_Statement`, which measures lateness
+against `ceil_ms (max deadline sent)`.  It used to be **false** because a re-arm rounded up a second time (for deadlines
+beyond the clamp the final tick could lie 1 ms per re-arm after the millisecond tick of the deadline); since the lateness
+is measured from the entry's exact due time (`Entry.dueAt`, repo ae850d0) that counterexample is gone
+(`C05_rearm_late_witness_fixed`), and `TInv.due` (`Lemmas/ClientInv.lean`: `dueAt + remainder ≤ max deadline now`, timer
+= millisecond ceiling of `dueAt`) is the invariant a proof would start from.
 -/
 set_option linter.unusedSimpArgs false
 namespace TarpcModel.Client
@@ -128,7 +130,48 @@ theorem C05_dispatch_idle_not_late (m bufCap tcap : Nat) (coupled : Bool) (ops :
     obtain ⟨hw, t, ht⟩ := hidle.armed d hdm
     exact ⟨hidle.notDue d hdm, hw, t, ht⟩
 
-/-! ### the monitor form is false: a re-arm rounds up a second time -/
+/-- **C05: not late, pre/post form.**  From every reachable state with a live dispatch (clock below `2^35` ms): if a
+poll of the dispatch leaves it not done (it returned `Pending`), then every request that was in flight and *due* when
+the poll began — its timer tick `w` had passed and nothing of its `remainder` was left after taking off the lateness
+(in particular: `remainder = 0` and `w * 10^6 ≤ now`) — is no longer in flight afterwards: it was failed with
+`DeadlineExceeded` by `poll_expired` in that poll, unless a response for it was read, its write failed, its call was
+cancelled or the connection failed first (each of which also removes it and tells the call).  A due request is never
+re-armed, and no other request can take its id. -/
+theorem C05_due_request_gone (m bufCap tcap : Nat) (coupled : Bool) (ops : List COp)
+    (hT : advSum ops < 2 ^ 35 * nsPerMs) (c : Sys) (hc : c = ops.foldl applyOp (initSys m bufCap tcap coupled))
+    (hlive : c.s.dDropped = false ∧ c.s.done = none) (hd : (pollDispatchKeep c.s c.now).done = none)
+    (en : Entry) (hen : en ∈ c.s.inflight) (w : Nat) (hw : c.s.timers.Has en.timerKey en.id w)
+    (hdue : w * nsPerMs ≤ c.now) (hrem : en.remainder ≤ c.now - w * nsPerMs) :
+    ∀ en' ∈ (pollDispatch c.s c.now).inflight, en'.id ≠ en.id := by
+  subst hc
+  have hf := C16_client_flags
+  have hT' : advSum (ops ++ [.pollDispatch]) < panicFreeNs := by
+    rw [advSum_append]; simp only [advSum, opAdv]; exact hT
+  have hp0 := reach_not_poisoned hf.1 hf.2 m bufCap tcap coupled ops hT
+  have hp1 := reach_not_poisoned hf.1 hf.2 m bufCap tcap coupled (ops ++ [.pollDispatch]) hT'
+  have hi0 := inv_reach m bufCap tcap coupled ops
+  rw [List.foldl_append] at hp1
+  simp only [List.foldl_cons, List.foldl_nil, applyOp] at hp1
+  generalize hcd : ops.foldl applyOp (initSys m bufCap tcap coupled) = c at *
+  have e : pollDispatch c.s c.now = pollDispatchKeep c.s c.now := by
+    rw [Flow.pollDispatch_eq, hd]; rfl
+  have hnow : c.now < panicFreeNs := by
+    have := now_reach m bufCap tcap coupled ops
+    rw [hcd] at this; rw [this]; exact hT
+  have hq : DelayQ.Complete c.s.timers := by
+    have := qc_reach hf.1 m bufCap tcap coupled ops
+    rw [hcd] at this; exact this hnow
+  have hcl : QClosed c.now DelayQ.Complete := by
+    have := qc_closed hf.1 c.now
+    exact ⟨fun h hi => this.insert (fun _ => h) hi hnow, fun h hr => this.remove (fun _ => h) hr hnow,
+      fun h => this.poll (fun _ => h) hnow, fun h => this.clear (fun _ => h) hnow, this.empty hnow,
+      fun b h => this.waker b (fun _ => h) hnow⟩
+  have hrun : (c.s.dDropped || c.s.done.isSome || c.s.poisoned) = false := by
+    simp [hlive.1, hlive.2, hp0]
+  rw [e]
+  exact pollDispatchKeep_due_gone hcl hi0 hq hrun hd (by rw [← e]; exact hp1) ⟨en, hen, rfl, w, hw, hdue, hrem⟩
+
+/-! ### the former drift of re-armed timers -/
 
 /-- a call made at 1 ns whose deadline is one clamp + 10 ms away; the dispatch is polled when the first timer fires
 (at `clampNs + 1 ms`, the millisecond tick of `1 ns + clampNs`), and again exactly at the deadline -/
@@ -137,35 +180,20 @@ def c05RearmLateOps : List COp :=
    .advance (clampNs + 1000000 - 1), .pollDispatch, .advance 9000000, .pollDispatch, .pollCall 0]
 
 set_option maxRecDepth 100000 in
-/-- **Finding: a re-armed deadline timer fires up to 1 ms (per re-arm) after the millisecond tick of the deadline.**
-The call is made at `t0 = 1 ns` with deadline `D = clampNs + 10 ms` (a whole millisecond).  `insert_request` arms
-`clampNs` and keeps `remainder = 10 ms − 1 ns`; the timer's tick is `ceil_ms (1 ns + clampNs) = clampNs + 1 ms`.  Polled
-exactly then, `poll_expired` finds `late = 0` (lateness is measured from the queue's *rounded* tick, not from the instant
-the timer was meant for), so `rest = 10 ms − 1 ns`, and re-arms: new tick `ceil_ms (clampNs + 1 ms + 10 ms − 1 ns) =
-clampNs + 11 ms = D + 1 ms`.  The dispatch polled at `D` — a millisecond tick at the deadline — goes back to waiting with
-the call still pending (the full C05 monitor rejects this trace); the call fails with `DeadlineExceeded` at `D + 1 ms`.
-Nothing is *due* and unhandled at any poll (`C05_dispatch_idle_not_late` holds): the lateness is in where the tick is
-placed.  It needs a deadline beyond `MAX_DEADLINE_TIMEOUT` (one year) and a call not made on a millisecond boundary; the
-server's re-arm (`Server.rearm`) does the same arithmetic. -/
-theorem C05_rearm_late_witness :
+/-- **Former finding, turned around (repo ae850d0).**  The call is made at `t0 = 1 ns` with deadline
+`D = clampNs + 10 ms`.  `insert_request` arms `clampNs`, records the exact due time `dueAt = 1 ns + clampNs` and keeps
+`remainder = 10 ms − 1 ns`; the timer's tick is `clampNs + 1 ms`.  Polled exactly then, `poll_expired` now measures the
+lateness from `dueAt` (`late = 1 ms − 1 ns`), so `rest = 9 ms` and the new tick is `clampNs + 10 ms = D`: the dispatch
+polled at `D` fails the call there, and the full C05 monitor accepts the trace.  (When the lateness was measured from the
+queue's *rounded* tick, `late` was 0 here, the re-arm rounded up a second time, the call was still pending at `D` — the
+monitor rejected the trace — and failed at `D + 1 ms`.) -/
+theorem C05_rearm_late_witness_fixed :
     advSum c05RearmLateOps < 2 ^ 35 * nsPerMs ∧
     (c05RearmLateOps.foldl applyOp (initSys 1 1 1 true)).now = clampNs + 10000000 ∧
-    (c05RearmLateOps.foldl applyOp (initSys 1 1 1 true)).s.inflight.map (fun e => (e.id, e.remainder)) = [(0, 0)] ∧
-    (c05RearmLateOps.foldl applyOp (initSys 1 1 1 true)).s.timers.entries.map (fun e => e.whenMs * nsPerMs) =
-      [clampNs + 11000000] ∧
-    (monC05 (trace (initSys 1 1 1 true) c05RearmLateOps)).ok = false ∧
-    (monC05NeverEarly (trace (initSys 1 1 1 true) c05RearmLateOps)).ok = true ∧
-    CEv.obs (.resolved 0 .deadline (clampNs + 11000000)) ∈
-      trace (initSys 1 1 1 true) (c05RearmLateOps ++ [.advance 1000000, .pollDispatch, .pollCall 0]) := by
+    (c05RearmLateOps.foldl applyOp (initSys 1 1 1 true)).s.inflight = [] ∧
+    (monC05 (trace (initSys 1 1 1 true) c05RearmLateOps)).ok = true ∧
+    CEv.obs (.resolved 0 .deadline (clampNs + 10000000)) ∈ trace (initSys 1 1 1 true) c05RearmLateOps := by
   decide
-
-/-- **`C05_monitor_full_Statement` is false**: the model's trace of `c05RearmLateOps` is rejected by the third clause
-of `checkC05` ("call still pending although the dispatch ran at `D`, past its deadline `D`"). -/
-theorem C05_monitor_full_statement_false : ¬ C05_monitor_full_Statement := by
-  intro h
-  have := h 1 1 1 true c05RearmLateOps
-  rw [C05_rearm_late_witness.2.2.2.2.1] at this
-  cases this
 
 /-! ### non-vacuity -/
 
